@@ -352,6 +352,16 @@ def evaluate(ctx, cls, op, o, args, pkey=None, warm=False):
                         fi, tuple(float(c) for c in e), fi, ' (source had answered its properties before the transform)' if warm else '')
                     break
                 rem.remove(hit[0])
+            if bad is None:
+                # ... and each of them winds about its own normal, which is the image of the source face's normal
+                nw = X.newell([X.fpt(p) for p in fr.boundary])
+                if X.dot(nw, X.fpt(fr.normal)) <= 0:
+                    bad = 'faces[%d] of the image winds against its own normal' % fi
+                else:
+                    en = mv(X.fpt(fo.normal)) if ak == 1 else X.fpt(fo.normal)
+                    if not X.pclose(en, X.fpt(fr.normal), 1e-7 * _LOOSE, 1.0):
+                        bad = 'faces[%d] of the image has normal %s, the image of the source face normal is %s' % (
+                            fi, tuple(float(c) for c in X.fpt(fr.normal)), tuple(float(c) for c in en))
     if bad is None and hasattr(r, 'to_dict') and hasattr(type(r), 'from_dict') and not isvec:
         # the image answers its derived properties like a fresh object built from the image's own defining data
         try:
